@@ -84,6 +84,10 @@ def Cur.refLoc : Cur → Loc
         | some e => e.loc
         | none => 0
 
+/-- use site kept for the replayed payload of a tag-selected variant: `Some(self.ev.reference_location())
+.filter(|r| *r != node_location)` — the alias token when the tagged node is delivered by a replay -/
+def tagUseSite (c : Cur) (l : Loc) : Option Loc := if c.refLoc != l then some c.refLoc else none
+
 /-! ## Configuration, types, values -/
 
 inductive DupPolicy where
@@ -1143,11 +1147,13 @@ def deserEnum : Nat → Cfg → String → List (String × VTy) → Cur → R Va
           | none => none
         match taggedVariant with
         | some tn =>
-          -- Mode::TaggedNewtype: payload replayed without the tag, as `!!str`
+          -- Mode::TaggedNewtype: payload replayed without the tag, as `!!str`; reached through an alias it
+          -- keeps the alias token as use site (fix e5db46c)
+          let c0 := c
           match c.next with
           | .err e c => .err e c
           | .ok _ c =>
-            let rc := Cur.replay [.scalar v tagString none st anchor l] 0 none
+            let rc := Cur.replay [.scalar v tagString none st anchor l] 0 (tagUseSite c0 l)
             match variantPayload fuel cfg variants tn l false true rc with
             | .err e _ => .err e c
             | .ok val _ => .ok val c
@@ -1175,13 +1181,14 @@ def deserEnum : Nat → Cfg → String → List (String × VTy) → Cur → R Va
       match simpleTaggedEnumName rawTag tag with
       | some tn =>
         if (lookupField variants tn).isSome then
+          let c0 := c
           match c.next with
           | .err e c => .err e c
           | .ok _ c =>
             match collectTaggedSeq fuel c 1 [.seqStart anchor tagNone none l] with
             | .err e c => .err e c
             | .ok evs c =>
-              let rc := Cur.replay evs 0 none
+              let rc := Cur.replay evs 0 (tagUseSite c0 l)
               match variantPayload fuel cfg variants tn l false true rc with
               | .err e _ => .err e c
               | .ok val _ => .ok val c
